@@ -1,6 +1,13 @@
 import TwistedModel.Threads.Team
-/-! Task conservation: for every task id `x`,
-    `#run x` (log) `+ #in-flight x` (backlog + worker queues + `coord` items of the coordinator queue) `= #accept x` (log).
+/-! Task conservation, for every *key* `κ` = (a set of tasks `κ.tp`, the log event `κ.ev` that marks one of them as done):
+    `#done κ` (log) `+ #in-flight κ` (backlog + worker queues + `coord` items of the coordinator queue) `= #accept κ` (log).
+
+    Instances (`runKey`, `resKey`, `errKey`, `logerrKey`):
+    * tasks with id `x` / the `run x` events                       → every task is called exactly once;
+    * ThreadPool calls `x` with a callback whose `func` had outcome `ok` / the `res x ok` events
+                                                                    → every outcome is reported exactly once, with the right flag;
+    * tasks `x` whose exception (or whose callback's exception) reaches `Team` / `err x` → logged exactly once;
+    * failing calls `x` without callback / `logerr x`               → `log.err` exactly once.
 
     The lemmas are "crash-robust": each says that IF the procedure's result is not crashed THEN its input was not
     crashed and the counts are related — so no structural invariant is needed here; `no_queue_item_raises`
@@ -8,40 +15,105 @@ import TwistedModel.Threads.Team
 namespace TwistedProps.C49
 open Twisted.Threads Twisted.Threads.St
 
-def isT (x : Nat) (t : Task) : Bool := t.1 == x
-def cT (x : Nat) : CItem → Bool
-  | .coord t => t.1 == x
+/-- events appended by a worker item (`taskEvents`); every other event comes from the coordinator or a public call -/
+def fromTask : Ev → Bool
+  | .run _ _ => true
+  | .err _ => true
+  | .res _ _ => true
+  | .logerr _ => true
   | _ => false
+
+/-- what is counted: the tasks `tp`, and the log event `ev` that calling one of them produces exactly once
+    (and calling any other task never produces) -/
+structure Key where
+  tp : Task → Bool
+  ev : Ev → Bool
+  ev_task : ∀ (t : Task) (w : Nat), (taskEvents t w).countP ev = if tp t then 1 else 0
+  ev_other : ∀ e : Ev, fromTask e = false → ev e = false
+
+@[simp] theorem Key.ev_create (κ : Key) (w l : Nat) (lim : Int) : κ.ev (.create w l lim) = false := κ.ev_other _ rfl
+@[simp] theorem Key.ev_wquit (κ : Key) (w : Nat) : κ.ev (.wquit w) = false := κ.ev_other _ rfl
+@[simp] theorem Key.ev_cquit (κ : Key) : κ.ev .cquit = false := κ.ev_other _ rfl
+@[simp] theorem Key.ev_accept (κ : Key) (t : Task) : κ.ev (.accept t) = false := κ.ev_other _ rfl
+@[simp] theorem Key.ev_refused (κ : Key) (k : Nat) : κ.ev (.refused k) = false := κ.ev_other _ rfl
+@[simp] theorem Key.ev_dropped (κ : Key) (t : Nat) : κ.ev (.dropped t) = false := κ.ev_other _ rfl
+@[simp] theorem Key.ev_assertion (κ : Key) : κ.ev .assertion = false := κ.ev_other _ rfl
+
+def cK (κ : Key) : CItem → Bool
+  | .coord t => κ.tp t
+  | _ => false
+def aK (κ : Key) : Ev → Bool
+  | .accept t => κ.tp t
+  | _ => false
+
+/-- copies of `κ`-tasks sitting in worker queues -/
+def wsumK (κ : Key) (ws : List Worker) : Nat := (ws.map (fun w => w.queue.countP κ.tp)).sum
+/-- how often a `κ`-task has been done (its event is in the log) -/
+def runsK (κ : Key) (s : St) : Nat := s.log.countP κ.ev
+/-- copies of `κ`-tasks not yet called: backlog + worker queues + coordinator queue -/
+def inflightK (κ : Key) (s : St) : Nat :=
+  s.pending.countP κ.tp + wsumK κ s.workers + s.coordQ.countP (cK κ)
+/-- how often `Team.do` accepted a `κ`-task -/
+def acceptsK (κ : Key) (s : St) : Nat := s.log.countP (aK κ)
+
+/-! the key "task id `x`, `run x` events" -/
+def isT (x : Nat) (t : Task) : Bool := t.1 == x
 def rE (x : Nat) : Ev → Bool
   | .run t _ => t == x
   | _ => false
-def aE (x : Nat) : Ev → Bool
-  | .accept t => t == x
-  | _ => false
+
+theorem rE_task (x : Nat) (t : Task) (w : Nat) : (taskEvents t w).countP (rE x) = if isT x t then 1 else 0 := by
+  unfold taskEvents isT
+  (repeat' split) <;> simp_all [rE]
+
+def runKey (x : Nat) : Key where
+  tp := isT x
+  ev := rE x
+  ev_task := rE_task x
+  ev_other := by intro e h; cases e <;> simp_all [fromTask, rE]
+
+def cT (x : Nat) : CItem → Bool := cK (runKey x)
+def aE (x : Nat) : Ev → Bool := aK (runKey x)
 
 /-- copies of task `x` sitting in worker queues -/
-def wsum (x : Nat) (ws : List Worker) : Nat := (ws.map (fun w => w.queue.countP (isT x))).sum
+def wsum (x : Nat) (ws : List Worker) : Nat := wsumK (runKey x) ws
 
 /-- how often task `x` has been called -/
-def runs (x : Nat) (s : St) : Nat := s.log.countP (rE x)
+def runs (x : Nat) (s : St) : Nat := runsK (runKey x) s
 /-- copies of task `x` not yet called: backlog + worker queues + coordinator queue -/
-def inflight (x : Nat) (s : St) : Nat :=
-  s.pending.countP (isT x) + wsum x s.workers + s.coordQ.countP (cT x)
+def inflight (x : Nat) (s : St) : Nat := inflightK (runKey x) s
 /-- how often `Team.do` accepted task `x` -/
-def accepts (x : Nat) (s : St) : Nat := s.log.countP (aE x)
+def accepts (x : Nat) (s : St) : Nat := acceptsK (runKey x) s
 
-def M (x : Nat) (s : St) : Nat := runs x s + inflight x s
+theorem inflight_eq (x : Nat) (s : St) :
+    inflight x s = s.pending.countP (isT x) + wsum x s.workers + s.coordQ.countP (cT x) := rfl
+
+def M (κ : Key) (s : St) : Nat := runsK κ s + inflightK κ s
 
 def NC (s : St) : Prop := s.crashed = none
 
-def d (x : Nat) (t : Task) : Nat := if t.1 = x then 1 else 0
+def d (κ : Key) (t : Task) : Nat := if κ.tp t then 1 else 0
 
-theorem countP_isT_single (x : Nat) (t : Task) : List.countP (isT x) [t] = d x t := by
-  simp [List.countP_cons, isT, d]
+theorem countP_isT_single (κ : Key) (t : Task) : List.countP κ.tp [t] = d κ t := by
+  simp [List.countP_cons, d]
 
-theorem wsum_set (x : Nat) (l : List Worker) (w : Nat) (wk y : Worker) (h : l[w]? = some wk) :
-    wsum x (l.set w y) + wk.queue.countP (isT x) = wsum x l + y.queue.countP (isT x) := by
-  unfold wsum
+theorem countP_cons_d (κ : Key) (t : Task) (l : List Task) :
+    List.countP κ.tp (t :: l) = List.countP κ.tp l + d κ t := by
+  simp [List.countP_cons, d]
+
+theorem countP_cK_coord (κ : Key) (t : Task) (l : List CItem) :
+    List.countP (cK κ) (CItem.coord t :: l) = List.countP (cK κ) l + d κ t := by
+  cases h : κ.tp t <;> simp [d, cK, h]
+
+theorem countP_cK_single (κ : Key) (t : Task) : List.countP (cK κ) [CItem.coord t] = d κ t := by
+  cases h : κ.tp t <;> simp [d, cK, h]
+
+theorem countP_aK_single (κ : Key) (t : Task) : List.countP (aK κ) [Ev.accept t] = d κ t := by
+  cases h : κ.tp t <;> simp [d, aK, h]
+
+theorem wsum_set (κ : Key) (l : List Worker) (w : Nat) (wk y : Worker) (h : l[w]? = some wk) :
+    wsumK κ (l.set w y) + wk.queue.countP (κ.tp) = wsumK κ l + y.queue.countP (κ.tp) := by
+  unfold wsumK
   induction l generalizing w with
   | nil => simp at h
   | cons a l ih =>
@@ -49,34 +121,34 @@ theorem wsum_set (x : Nat) (l : List Worker) (w : Nat) (wk y : Worker) (h : l[w]
     | zero => simp at h; subst h; simp; omega
     | succ w => simp at h; have := ih w h; simp [-List.map_set] at this ⊢; omega
 
-theorem wsum_append_empty (x : Nat) (l : List Worker) : wsum x (l ++ [({ } : Worker)]) = wsum x l := by
-  simp [wsum]
+theorem wsum_append_empty (κ : Key) (l : List Worker) : wsumK κ (l ++ [({ } : Worker)]) = wsumK κ l := by
+  simp [wsumK]
 
 theorem not_NC_crash (s : St) (c : Nat) : ¬ NC (s.crash c) := by
   unfold NC St.crash; split <;> simp_all
 
-/-- the shape of a lemma about a coordinator procedure `f` whose net effect on `M x` is `+k` -/
-def Keeps (x : Nat) (s s' : St) (k : Nat) : Prop :=
-  NC s' → NC s ∧ M x s' = M x s + k ∧ accepts x s' = accepts x s
+/-- the shape of a lemma about a coordinator procedure `f` whose net effect on `M κ` is `+k` -/
+def Keeps (κ : Key) (s s' : St) (k : Nat) : Prop :=
+  NC s' → NC s ∧ M κ s' = M κ s + k ∧ acceptsK κ s' = acceptsK κ s
 
-theorem Keeps.refl (x : Nat) (s : St) : Keeps x s s 0 := fun h => ⟨h, rfl, rfl⟩
+theorem Keeps.refl (κ : Key) (s : St) : Keeps κ s s 0 := fun h => ⟨h, rfl, rfl⟩
 
-theorem Keeps.trans {x : Nat} {a b c : St} {j k : Nat} (h1 : Keeps x a b j) (h2 : Keeps x b c k) :
-    Keeps x a c (j + k) := by
+theorem Keeps.trans {κ : Key} {a b c : St} {j k : Nat} (h1 : Keeps κ a b j) (h2 : Keeps κ b c k) :
+    Keeps κ a c (j + k) := by
   intro h
   obtain ⟨hb, m2, a2⟩ := h2 h
   obtain ⟨ha, m1, a1⟩ := h1 hb
   exact ⟨ha, by omega, by omega⟩
 
 /-- a state change that touches none of the counted fields -/
-theorem Keeps.of_eq {x : Nat} {s s' : St} (hc : s'.crashed = s.crashed) (hl : s'.log = s.log)
-    (hp : s'.pending = s.pending) (hw : s'.workers = s.workers) (hq : s'.coordQ = s.coordQ) : Keeps x s s' 0 := by
+theorem Keeps.of_eq {κ : Key} {s s' : St} (hc : s'.crashed = s.crashed) (hl : s'.log = s.log)
+    (hp : s'.pending = s.pending) (hw : s'.workers = s.workers) (hq : s'.coordQ = s.coordQ) : Keeps κ s s' 0 := by
   intro h
   refine ⟨by unfold NC at *; rw [← hc]; exact h, ?_, ?_⟩
-  · simp only [M, runs, inflight, hl, hp, hw, hq]; rfl
-  · simp only [accepts, hl]
+  · simp only [M, runsK, inflightK, hl, hp, hw, hq]; rfl
+  · simp only [acceptsK, hl]
 
-theorem keeps_workerDo (x : Nat) (s : St) (w : Nat) (t : Task) : Keeps x s (s.workerDo w t) (d x t) := by
+theorem keeps_workerDo (κ : Key) (s : St) (w : Nat) (t : Task) : Keeps κ s (s.workerDo w t) (d κ t) := by
   unfold St.workerDo
   split
   · intro h; exact absurd h (not_NC_crash _ _)
@@ -85,12 +157,12 @@ theorem keeps_workerDo (x : Nat) (s : St) (w : Nat) (t : Task) : Keeps x s (s.wo
     · intro h; exact absurd h (not_NC_crash _ _)
     · intro h
       refine ⟨h, ?_, rfl⟩
-      have := wsum_set x s.workers w wk { wk with queue := wk.queue ++ [t] } hw
+      have := wsum_set κ s.workers w wk { wk with queue := wk.queue ++ [t] } hw
       simp only [List.countP_append, countP_isT_single] at this
-      simp only [M, runs, inflight]
+      simp only [M, runsK, inflightK]
       omega
 
-theorem keeps_workerQuit (x : Nat) (s : St) (w : Nat) : Keeps x s (s.workerQuit w) 0 := by
+theorem keeps_workerQuit (κ : Key) (s : St) (w : Nat) : Keeps κ s (s.workerQuit w) 0 := by
   unfold St.workerQuit
   split
   · intro h; exact absurd h (not_NC_crash _ _)
@@ -98,241 +170,241 @@ theorem keeps_workerQuit (x : Nat) (s : St) (w : Nat) : Keeps x s (s.workerQuit 
     split
     · intro h; exact absurd h (not_NC_crash _ _)
     · intro h
-      have := wsum_set x s.workers w wk { wk with quit := true } hw
+      have := wsum_set κ s.workers w wk { wk with quit := true } hw
       dsimp only at this
       refine ⟨h, ?_, ?_⟩
-      · simp only [M, runs, inflight, St.emit, List.countP_append]
-        simp [rE]; omega
-      · simp [accepts, St.emit, aE]
+      · simp only [M, runsK, inflightK, St.emit, List.countP_append]
+        simp; omega
+      · simp [acceptsK, St.emit, aK]
 
-theorem keeps_popIdle {x : Nat} {s s' : St} {w : Nat} (h : s.popIdle = some (w, s')) : Keeps x s s' 0 := by
+theorem keeps_popIdle {κ : Key} {s s' : St} {w : Nat} (h : s.popIdle = some (w, s')) : Keeps κ s s' 0 := by
   unfold St.popIdle at h
   split at h
   · cases h
   · simp only [Option.some.injEq, Prod.mk.injEq] at h
     rw [← h.2]; exact Keeps.of_eq rfl rfl rfl rfl rfl
 
-theorem keeps_createWorker (x : Nat) (s : St) : Keeps x s s.createWorker.2 0 := by
+theorem keeps_createWorker (κ : Key) (s : St) : Keeps κ s s.createWorker.2 0 := by
   unfold St.createWorker
   split
-  · exact Keeps.refl x s
+  · exact Keeps.refl κ s
   · intro h
     refine ⟨h, ?_, ?_⟩
-    · simp only [M, runs, inflight, St.emit, List.countP_append, wsum_append_empty]
-      simp [rE]
-    · simp [accepts, St.emit, aE]
+    · simp only [M, runsK, inflightK, St.emit, List.countP_append, wsum_append_empty]
+      simp
+    · simp [acceptsK, St.emit, aK]
 
-theorem keeps_coordinate (x : Nat) (s : St) (t : Task) : Keeps x s (s.coordinate t) (d x t) := by
+theorem keeps_coordinate (κ : Key) (s : St) (t : Task) : Keeps κ s (s.coordinate t) (d κ t) := by
   unfold St.coordinate
   cases hp : s.popIdle with
   | some r =>
     obtain ⟨w, s1⟩ := r
     simp only
-    have h1 := keeps_popIdle (x := x) hp
-    have h2 : Keeps x s1 { s1 with busy := s1.busy + 1 } 0 := Keeps.of_eq rfl rfl rfl rfl rfl
-    have h3 := keeps_workerDo x { s1 with busy := s1.busy + 1 } w t
+    have h1 := keeps_popIdle (κ := κ) hp
+    have h2 : Keeps κ s1 { s1 with busy := s1.busy + 1 } 0 := Keeps.of_eq rfl rfl rfl rfl rfl
+    have h3 := keeps_workerDo κ { s1 with busy := s1.busy + 1 } w t
     simpa using (h1.trans h2).trans h3
   | none =>
     simp only
-    have hc := keeps_createWorker x s
+    have hc := keeps_createWorker κ s
     cases hcw : s.createWorker with
     | mk o s1 =>
       rw [hcw] at hc
       cases o with
       | none =>
         simp only
-        have h2 : Keeps x s1 { s1 with pending := s1.pending ++ [t] } (d x t) := by
+        have h2 : Keeps κ s1 { s1 with pending := s1.pending ++ [t] } (d κ t) := by
           intro h
           refine ⟨h, ?_, rfl⟩
-          simp only [M, runs, inflight, List.countP_append, countP_isT_single]; omega
+          simp only [M, runsK, inflightK, List.countP_append, countP_isT_single]; omega
         simpa using hc.trans h2
       | some w =>
         simp only
-        have h2 : Keeps x s1 { s1 with busy := s1.busy + 1 } 0 := Keeps.of_eq rfl rfl rfl rfl rfl
-        have h3 := keeps_workerDo x { s1 with busy := s1.busy + 1 } w t
+        have h2 : Keeps κ s1 { s1 with busy := s1.busy + 1 } 0 := Keeps.of_eq rfl rfl rfl rfl rfl
+        have h3 := keeps_workerDo κ { s1 with busy := s1.busy + 1 } w t
         simpa using (hc.trans h2).trans h3
 
-theorem keeps_quitLoop (x : Nat) (n : Nat) (s : St) : Keeps x s (quitLoop n s) 0 := by
+theorem keeps_quitLoop (κ : Key) (n : Nat) (s : St) : Keeps κ s (quitLoop n s) 0 := by
   induction n generalizing s with
-  | zero => exact Keeps.refl x s
+  | zero => exact Keeps.refl κ s
   | succ n ih =>
     unfold quitLoop
     cases hp : s.popIdle with
     | some r =>
       obtain ⟨w, s1⟩ := r
       simp only
-      simpa using ((keeps_popIdle (x := x) hp).trans (keeps_workerQuit x s1 w)).trans (ih _)
+      simpa using ((keeps_popIdle (κ := κ) hp).trans (keeps_workerQuit κ s1 w)).trans (ih _)
     | none =>
       simp only
-      have h2 : Keeps x s { s with toShrink := s.toShrink + 1 } 0 := Keeps.of_eq rfl rfl rfl rfl rfl
+      have h2 : Keeps κ s { s with toShrink := s.toShrink + 1 } 0 := Keeps.of_eq rfl rfl rfl rfl rfl
       simpa using h2.trans (ih _)
 
-theorem keeps_coordinatorQuit (x : Nat) (s : St) : Keeps x s s.coordinatorQuit 0 := by
+theorem keeps_coordinatorQuit (κ : Key) (s : St) : Keeps κ s s.coordinatorQuit 0 := by
   unfold St.coordinatorQuit
   split
   · intro h; exact absurd h (not_NC_crash _ _)
   · intro h
     refine ⟨h, ?_, ?_⟩
-    · simp only [M, runs, inflight, St.emit, List.countP_append]; simp [rE]
-    · simp [accepts, St.emit, aE]
+    · simp only [M, runsK, inflightK, St.emit, List.countP_append]; simp
+    · simp [acceptsK, St.emit, aK]
 
-theorem keeps_quitIdlers (x : Nat) (s : St) (n : Option Nat) : Keeps x s (s.quitIdlers n) 0 := by
+theorem keeps_quitIdlers (κ : Key) (s : St) (n : Option Nat) : Keeps κ s (s.quitIdlers n) 0 := by
   unfold St.quitIdlers
-  have h1 := keeps_quitLoop x (n.getD (s.idle.length + s.busy)) s
+  have h1 := keeps_quitLoop κ (n.getD (s.idle.length + s.busy)) s
   simp only
   generalize quitLoop (n.getD (s.idle.length + s.busy)) s = s2 at *
   split
-  · simpa using h1.trans (keeps_coordinatorQuit x s2)
+  · simpa using h1.trans (keeps_coordinatorQuit κ s2)
   · exact h1
 
-theorem keeps_idleAdd (x : Nat) (s : St) (w : Nat) : Keeps x s (s.idleAdd w) 0 := by
+theorem keeps_idleAdd (κ : Key) (s : St) (w : Nat) : Keeps κ s (s.idleAdd w) 0 := by
   unfold St.idleAdd; split
-  · exact Keeps.refl x s
+  · exact Keeps.refl κ s
   · exact Keeps.of_eq rfl rfl rfl rfl rfl
 
-theorem keeps_recycle (x : Nat) (s : St) (w : Nat) : Keeps x s (s.recycle w) 0 := by
+theorem keeps_recycle (κ : Key) (s : St) (w : Nat) : Keeps κ s (s.recycle w) 0 := by
   unfold St.recycle
-  have h1 := keeps_idleAdd x s w
+  have h1 := keeps_idleAdd κ s w
   generalize s.idleAdd w = s1 at *
   simp only
   split
   · rename_i t rest hp
-    have h3 := keeps_coordinate x { s1 with pending := rest } t
+    have h3 := keeps_coordinate κ { s1 with pending := rest } t
     intro h
     obtain ⟨h4, m4, a4⟩ := h3 h
-    have hM : M x s1 = M x { s1 with pending := rest } + d x t := by
-      simp only [M, runs, inflight, hp, List.countP_cons, isT, d, beq_iff_eq]; omega
+    have hM : M κ s1 = M κ { s1 with pending := rest } + d κ t := by
+      simp only [M, runsK, inflightK, hp, countP_cons_d]; omega
     obtain ⟨h5, m5, a5⟩ := h1 (show NC s1 from h4)
-    have a4' : accepts x { s1 with pending := rest } = accepts x s1 := rfl
+    have a4' : acceptsK κ { s1 with pending := rest } = acceptsK κ s1 := rfl
     exact ⟨h5, by omega, by omega⟩
   · split
-    · simpa using h1.trans (keeps_quitIdlers x s1 none)
+    · simpa using h1.trans (keeps_quitIdlers κ s1 none)
     · split
       · split
-        · have h2 : Keeps x s1 { s1 with toShrink := s1.toShrink - 1, idle := s1.idle.erase w } 0 :=
+        · have h2 : Keeps κ s1 { s1 with toShrink := s1.toShrink - 1, idle := s1.idle.erase w } 0 :=
             Keeps.of_eq rfl rfl rfl rfl rfl
-          simpa using (h1.trans h2).trans (keeps_workerQuit x _ w)
+          simpa using (h1.trans h2).trans (keeps_workerQuit κ _ w)
         · intro h; exact absurd h (not_NC_crash _ _)
       · exact h1
 
 
-theorem keeps_growLoop (x : Nat) (n : Nat) (s : St) : Keeps x s (growLoop n s) 0 := by
+theorem keeps_growLoop (κ : Key) (n : Nat) (s : St) : Keeps κ s (growLoop n s) 0 := by
   induction n generalizing s with
-  | zero => exact Keeps.refl x s
+  | zero => exact Keeps.refl κ s
   | succ n ih =>
     unfold growLoop
-    have hc := keeps_createWorker x s
+    have hc := keeps_createWorker κ s
     split
     · rename_i s' heq; rw [heq] at hc; exact hc
     · rename_i w s' heq; rw [heq] at hc
-      simpa using (hc.trans (keeps_recycle x s' w)).trans (ih _)
+      simpa using (hc.trans (keeps_recycle κ s' w)).trans (ih _)
 
 /-- conservation for one state -/
-def Cons (s : St) : Prop := ∀ x, runs x s + inflight x s = accepts x s
+def Cons (s : St) : Prop := ∀ κ : Key, runsK κ s + inflightK κ s = acceptsK κ s
 
-theorem cons_of_keeps {s s' : St} (h : ∀ x, Keeps x s s' 0) (hn : NC s') (hc : Cons s) : Cons s' := by
-  intro x
-  obtain ⟨_, m, a⟩ := h x hn
-  have := hc x
+theorem cons_of_keeps {s s' : St} (h : ∀ κ, Keeps κ s s' 0) (hn : NC s') (hc : Cons s) : Cons s' := by
+  intro κ
+  obtain ⟨_, m, a⟩ := h κ hn
+  have := hc κ
   simp only [M] at m; omega
 
 /-- one coordinator item: the `coord` item leaves the queue and its task enters the backlog or a worker queue -/
-theorem keeps_stepC (x : Nat) (s : St) : Keeps x s s.stepC 0 := by
+theorem keeps_stepC (κ : Key) (s : St) : Keeps κ s s.stepC 0 := by
   unfold St.stepC
   split
-  · exact Keeps.refl x s
+  · exact Keeps.refl κ s
   · rename_i c rest hq
-    have hpop : ∀ (c' : CItem), cT x c' = false → s.coordQ = c' :: rest → Keeps x s { s with coordQ := rest } 0 := by
+    have hpop : ∀ (c' : CItem), cK κ c' = false → s.coordQ = c' :: rest → Keeps κ s { s with coordQ := rest } 0 := by
       intro c' hc' hq' h
       refine ⟨h, ?_, rfl⟩
-      simp only [M, runs, inflight, hq', List.countP_cons, hc']; simp
+      simp only [M, runsK, inflightK, hq', List.countP_cons, hc']; simp
     cases c with
     | coord t =>
       simp only [St.runC]
-      have h3 := keeps_coordinate x { s with coordQ := rest } t
+      have h3 := keeps_coordinate κ { s with coordQ := rest } t
       intro h
       obtain ⟨h4, m4, a4⟩ := h3 h
-      have hM : M x s = M x { s with coordQ := rest } + d x t := by
-        simp only [M, runs, inflight, hq, List.countP_cons, cT, d, beq_iff_eq]; omega
-      have a4' : accepts x { s with coordQ := rest } = accepts x s := rfl
+      have hM : M κ s = M κ { s with coordQ := rest } + d κ t := by
+        simp only [M, runsK, inflightK, hq, countP_cK_coord]; omega
+      have a4' : acceptsK κ { s with coordQ := rest } = acceptsK κ s := rfl
       exact ⟨h4, by omega, by omega⟩
-    | grow n => simpa [St.runC] using (hpop _ rfl hq).trans (keeps_growLoop x n _)
-    | shrink n => simpa [St.runC] using (hpop _ rfl hq).trans (keeps_quitIdlers x _ n)
+    | grow n => simpa [St.runC] using (hpop _ rfl hq).trans (keeps_growLoop κ n _)
+    | shrink n => simpa [St.runC] using (hpop _ rfl hq).trans (keeps_quitIdlers κ _ n)
     | recycle w =>
-      have h2 : Keeps x { s with coordQ := rest } { s with coordQ := rest, busy := s.busy - 1 } 0 :=
+      have h2 : Keeps κ { s with coordQ := rest } { s with coordQ := rest, busy := s.busy - 1 } 0 :=
         Keeps.of_eq rfl rfl rfl rfl rfl
-      simpa [St.runC] using ((hpop _ rfl hq).trans h2).trans (keeps_recycle x _ w)
+      simpa [St.runC] using ((hpop _ rfl hq).trans h2).trans (keeps_recycle κ _ w)
     | finish =>
-      have h2 : Keeps x { s with coordQ := rest } { s with coordQ := rest, shouldQuit := true } 0 :=
+      have h2 : Keeps κ { s with coordQ := rest } { s with coordQ := rest, shouldQuit := true } 0 :=
         Keeps.of_eq rfl rfl rfl rfl rfl
-      simpa [St.runC] using ((hpop _ rfl hq).trans h2).trans (keeps_quitIdlers x _ none)
+      simpa [St.runC] using ((hpop _ rfl hq).trans h2).trans (keeps_quitIdlers κ _ none)
 
-theorem countP_rE_taskEvents (x : Nat) (t : Task) (w : Nat) : (taskEvents t w).countP (rE x) = d x t := by
-  unfold taskEvents d
-  (repeat' split) <;> simp_all [rE]
+theorem countP_rE_taskEvents (κ : Key) (t : Task) (w : Nat) : (taskEvents t w).countP (κ.ev) = d κ t := by
+  unfold d; exact κ.ev_task t w
 
-theorem countP_aE_taskEvents (x : Nat) (t : Task) (w : Nat) : (taskEvents t w).countP (aE x) = 0 := by
+theorem countP_aE_taskEvents (κ : Key) (t : Task) (w : Nat) : (taskEvents t w).countP (aK κ) = 0 := by
   unfold taskEvents
-  (repeat' split) <;> simp [aE]
+  (repeat' split) <;> simp [aK]
 
 /-- one worker item: the task leaves the worker's queue and is called (one `run` event) -/
-theorem keeps_stepW (x : Nat) (s : St) (w : Nat) : Keeps x s (s.stepW w) 0 := by
+theorem keeps_stepW (κ : Key) (s : St) (w : Nat) : Keeps κ s (s.stepW w) 0 := by
   unfold St.stepW
   split
-  · exact Keeps.refl x s
+  · exact Keeps.refl κ s
   · rename_i wk hw
     split
-    · exact Keeps.refl x s
+    · exact Keeps.refl κ s
     · rename_i t rest hqe
       simp only [St.coordDo]
       split
       · intro h; exact absurd h (not_NC_crash _ _)
       · intro h
-        have := wsum_set x s.workers w wk { wk with queue := rest } hw
+        have := wsum_set κ s.workers w wk { wk with queue := rest } hw
         rw [hqe] at this
-        simp only [List.countP_cons, isT, beq_iff_eq] at this
+        simp only [countP_cons_d] at this
         refine ⟨h, ?_, ?_⟩
-        · simp only [M, runs, inflight, List.countP_append, countP_rE_taskEvents, d]
-          simp [cT]
-          split <;> simp_all <;> omega
-        · simp only [accepts, List.countP_append, countP_aE_taskEvents]; rfl
+        · simp only [M, runsK, inflightK, List.countP_append, countP_rE_taskEvents]
+          simp [cK]
+          omega
+        · simp only [acceptsK, List.countP_append, countP_aE_taskEvents]; rfl
 
 /-! public operations: they only append to the coordinator queue and the log -/
 
-theorem cons_emit {s : St} (e : Ev) (hr : ∀ x, rE x e = false) (ha : ∀ x, aE x e = false) (h : Cons s) :
+theorem cons_emit {s : St} (e : Ev) (hr : fromTask e = false) (ha : ∀ κ, aK κ e = false) (h : Cons s) :
     Cons (s.emit e) := by
-  intro x
-  have := h x
-  simp only [runs, inflight, accepts, St.emit, List.countP_append, List.countP_cons, hr, ha] at *
+  intro κ
+  have := h κ
+  have hr' := κ.ev_other e hr
+  simp only [runsK, inflightK, acceptsK, St.emit, List.countP_append, List.countP_cons, hr', ha] at *
   simpa using this
 
-theorem cons_append {s : St} (c : CItem) (hc : ∀ x, cT x c = false) (h : Cons s) :
+theorem cons_append {s : St} (c : CItem) (hc : ∀ κ, cK κ c = false) (h : Cons s) :
     Cons { s with coordQ := s.coordQ ++ [c] } := by
-  intro x
-  have := h x
-  simp only [runs, inflight, accepts, List.countP_append, List.countP_cons, hc] at *
+  intro κ
+  have := h κ
+  simp only [runsK, inflightK, acceptsK, List.countP_append, List.countP_cons, hc] at *
   simpa using this
 
-theorem cons_teamSubmit {s : St} (what : Nat) (c : CItem) (hc : ∀ x, cT x c = false) (h : Cons s) :
+theorem cons_teamSubmit {s : St} (what : Nat) (c : CItem) (hc : ∀ κ, cK κ c = false) (h : Cons s) :
     Cons (s.teamSubmit what c).1 := by
   unfold St.teamSubmit; split
-  · exact cons_emit _ (fun _ => rfl) (fun _ => rfl) h
+  · exact cons_emit _ rfl (fun _ => rfl) h
   · exact cons_append c hc h
 
 theorem cons_teamDo {s : St} (t : Task) (h : Cons s) : Cons (s.teamDo t).1 := by
   unfold St.teamDo; split
-  · exact cons_emit _ (fun _ => rfl) (fun _ => rfl) h
-  · intro x
-    have := h x
-    simp only [runs, inflight, accepts, St.emit, List.countP_append, List.countP_cons, rE, aE, cT] at *
+  · exact cons_emit _ rfl (fun _ => rfl) h
+  · intro κ
+    have := h κ
+    simp only [runsK, inflightK, acceptsK, St.emit, List.countP_append, countP_cK_single, countP_aK_single] at *
     simp
     omega
 
 theorem cons_teamQuit {s : St} (h : Cons s) : Cons s.teamQuit.1 := by
   unfold St.teamQuit; split
-  · exact cons_emit _ (fun _ => rfl) (fun _ => rfl) h
+  · exact cons_emit _ rfl (fun _ => rfl) h
   · simp only; split
-    · exact cons_emit (s := { s with quit := true }) _ (fun _ => rfl) (fun _ => rfl) h
+    · exact cons_emit (s := { s with quit := true }) _ rfl (fun _ => rfl) h
     · exact cons_append (s := { s with quit := true }) .finish (fun _ => rfl) h
 
 theorem cons_poolAdjustCore {s : St} (mn mx : Int) (h : Cons s) : Cons (s.poolAdjustCore mn mx).1 := by
@@ -364,7 +436,7 @@ theorem cons_poolAdjust {s : St} (mn mx : Option Int) (h : Cons s) : Cons (s.poo
   unfold St.poolAdjust
   simp only
   split
-  · exact cons_emit _ (fun _ => rfl) (fun _ => rfl) h
+  · exact cons_emit _ rfl (fun _ => rfl) h
   · exact cons_poolAdjustCore _ _ h
 
 theorem cons_applyOp {s : St} (o : Op) (hn : NC (applyOp s o)) (h : Cons s) : Cons (applyOp s o) := by
@@ -374,8 +446,8 @@ theorem cons_applyOp {s : St} (o : Op) (hn : NC (applyOp s o)) (h : Cons s) : Co
   | shrink n => exact cons_teamSubmit _ _ (fun _ => rfl) h
   | quit => exact cons_teamQuit h
   | limit l => exact h
-  | stepC => exact cons_of_keeps (fun x => keeps_stepC x s) hn h
-  | stepW w => exact cons_of_keeps (fun x => keeps_stepW x s w) hn h
+  | stepC => exact cons_of_keeps (fun κ => keeps_stepC κ s) hn h
+  | stepW w => exact cons_of_keeps (fun κ => keeps_stepW κ s w) hn h
   | any k =>
     revert hn
     show NC (s.stepAny k) → Cons (s.stepAny k)
@@ -383,15 +455,15 @@ theorem cons_applyOp {s : St} (o : Op) (hn : NC (applyOp s o)) (h : Cons s) : Co
     split
     · exact fun _ => h
     · split
-      · exact fun hn => cons_of_keeps (fun x => keeps_stepC x s) hn h
-      · exact fun hn => cons_of_keeps (fun x => keeps_stepW x s _) hn h
+      · exact fun hn => cons_of_keeps (fun κ => keeps_stepC κ s) hn h
+      · exact fun hn => cons_of_keeps (fun κ => keeps_stepW κ s _) hn h
   | pStart => exact cons_poolAdjust (s := { s with joined := false, started := true, limit := s.pmax }) none none h
   | pStop => exact cons_teamQuit (s := { s with joined := true, started := false, limit := 0 }) h
-  | pCall t r =>
-    show Cons (s.poolCall t r)
+  | pCall t r cb =>
+    show Cons (s.poolCall t r cb)
     unfold St.poolCall
     split
-    · exact cons_emit _ (fun _ => rfl) (fun _ => rfl) h
+    · exact cons_emit _ rfl (fun _ => rfl) h
     · exact cons_teamDo _ h
   | pAdjust mn mx => exact cons_poolAdjust mn mx h
   | pStartWorker => exact cons_teamSubmit _ _ (fun _ => rfl) h
@@ -425,6 +497,6 @@ theorem cons_run {s : St} (ops : List Op) (hn : NC (run s ops)) (h : Cons s) : C
 
 theorem cons_fresh (s : St) (h1 : s.log = []) (h2 : s.pending = []) (h3 : s.workers = []) (h4 : s.coordQ = []) :
     Cons s := by
-  intro x; simp [runs, inflight, accepts, wsum, h1, h2, h3, h4]
+  intro κ; simp [runsK, inflightK, acceptsK, wsumK, h1, h2, h3, h4]
 
 end TwistedProps.C49
